@@ -466,6 +466,21 @@ func run(raw json.RawMessage) driver.Result {
 			direct = append(direct, "unmarshal: "+err.Error())
 		}
 		dec := sourcewrap.NewTransformingDecoder(&djson.Decoder{}, xf.Manglers(chain)...)
+		if r.Chance(1, 2) {
+			// the same decoder instance first decodes for ANOTHER config type
+			ot := reflect.TypeOf(EzB{})
+			if t0 == ot {
+				ot = reflect.TypeOf(EzA{})
+			}
+			other := ptrify.Pointerify(ot, reflect.Value{})
+			pre := safeValue(func() (reflect.Value, error) {
+				return dec.Decode(strings.NewReader("{}"), dials.NewType(other))
+			})
+			if pre.Class() == "ok" && pre.V.Type() != other {
+				direct = append(direct, fmt.Sprintf("transforming decoder asked for %s returned a %s", other, pre.V.Type()))
+			}
+			tags = append(tags, "decoder-reused-after-another-type")
+		}
 		res = safeValue(func() (reflect.Value, error) {
 			return dec.Decode(strings.NewReader(string(doc)), dials.NewType(pt))
 		})
